@@ -27,6 +27,7 @@ var (
 	reLine   = regexp.MustCompile(`^(\d+)\s+([a-z0-9_]+)\((.*)$`)
 	rePathQ  = regexp.MustCompile(`"((?:[^"\\]|\\.)*)"`)
 	rePathFD = regexp.MustCompile(`<([^<>]*)>`)
+	reRet    = regexp.MustCompile(`\)\s+= `)
 )
 
 const TraceSet = "mkdirat,mkdir,openat,open,creat,write,pwrite64,writev,fsync,fdatasync,close,fchmodat,chmod,fchmod,renameat,renameat2,rename,unlinkat,unlink,rmdir,linkat,symlinkat,ftruncate,truncate"
@@ -54,9 +55,11 @@ func ParseStrace(path string) ([]Syscall, bool, error) {
 		}
 		s := Syscall{PID: m[1], Name: m[2]}
 		rest := m[3]
-		if i := strings.LastIndex(rest, ") = "); i >= 0 {
+		// strace pads short lines: "close(3</etc/ld.so.cache>)        = 0"
+		if loc := reRet.FindAllStringIndex(rest, -1); len(loc) > 0 {
+			i, j := loc[len(loc)-1][0], loc[len(loc)-1][1]
 			s.Args = rest[:i]
-			s.Ret = strings.TrimSpace(rest[i+4:])
+			s.Ret = strings.TrimSpace(rest[j:])
 			if s.Ret == "?" {
 				s.Killed = true
 			}
